@@ -5,7 +5,7 @@ import VaxisModel.Spec.InputEvents
 /-! Driver for C03.  Stateful: a case is
 ```
 #case id
-init mask=<m> caps=<17 bits> p=<b> q=<b> z=<b> ns=c,r,x,y ucs=<n> ch=<4 digits>
+init mask=<m> caps=<17 bits> p=<b> q=<b> z=<b> ns=c,r,x,y ucs=<n> ch=<5 digits>
 -- direct cases:
 seq <sequence> [k <tok> <et>]      ⇥ <outcome> ev=<events> snd=<values> <state>
 setreq <b> | drain | stub <b>
@@ -93,7 +93,7 @@ structure D where
 def canonState (s : Sys) : String :=
   let c := String.join (s.vs.caps.toList.map bit)
   let ns := s.vs.nextSize
-  s!"caps={c} p={bit s.vs.pastePending} q={bit s.vs.reqCursorPos} z={bit s.vs.resizeFlag} ns={ns.cols},{ns.rows},{ns.xpix},{ns.ypix} ucs={s.vs.userCursorStyle} ch={s.sizeDone}{s.color.length}{s.fg.length}{s.bg.length}"
+  s!"caps={c} p={bit s.vs.pastePending} q={bit s.vs.reqCursorPos} z={bit s.vs.resizeFlag} ns={ns.cols},{ns.rows},{ns.xpix},{ns.ypix} ucs={s.vs.userCursorStyle} ch={s.cursorCh.length}{s.sizeDone}{s.color.length}{s.fg.length}{s.bg.length}"
 
 def capsOfBits (l : List Bool) : Caps :=
   match l with
@@ -121,12 +121,12 @@ def parseInit (f : List String) : Option Sys := do
   let nsl ← (ns.splitOn ",").mapM (·.toInt?)
   let (c, r, x, y) ← match nsl with | [c, r, x, y] => some (c, r, x, y) | _ => none
   let chl := ch.toList.map fun d => d.toNat - 48
-  let (sd, co, fg, bg) ← match chl with | [a, b, c, d] => some (a, b, c, d) | _ => none
+  let (cp, sd, co, fg, bg) ← match chl with | [z, a, b, c, d] => some (z, a, b, c, d) | _ => none
   let vs : VState := { pastePending := p == "1", reqCursorPos := q == "1", resizeFlag := z == "1",
                        caps := capsOfBits (caps.toList.map (· == '1')), nextSize := { cols := c, rows := r, xpix := x, ypix := y },
                        userCursorStyle := (← ucs.toInt?) }
   -- contents of pre-filled channels are unknown (never happens right after New); use placeholders
-  pure { vs := vs, sizeDone := sd, color := List.replicate co [], fg := List.replicate fg [], bg := List.replicate bg [] }
+  pure { vs := vs, cursorCh := List.replicate cp (0, 0), sizeDone := sd, color := List.replicate co [], fg := List.replicate fg [], bg := List.replicate bg [] }
 
 def params (qcap : Nat) (b64 : Option (List Nat)) : Params :=
   { qcap := qcap, kinds := Kinds.ofGen, b64 := fun _ => b64 }
@@ -146,7 +146,10 @@ def perform (k : KeyInfo) (p : Params) (stub : Bool) (fuel : Nat) (s : Sys) (evs
       | .postB ev | .postNB ev => perform k p stub fuel { s with pend := rest } (evs.push (renderEvent k ev)) snd blk
       | .sendCursorPos r c =>
           match stepEffect p s e rest with
-          | some s' => perform k p stub fuel s' evs (if stub then snd.push s!"cp:{r}:{c}" else snd) blk
+          | some s' =>
+              -- a stub requester is always waiting: it takes the answer at once (rendezvous or buffered)
+              if stub then perform k p stub fuel { s' with cursorCh := [] } evs (snd.push s!"cp:{r}:{c}") blk
+              else perform k p stub fuel s' evs snd blk
           | none => perform k p stub fuel { s with pend := rest } evs (snd.push s!"released:cp:{r}:{c}") (blk.orElse fun _ => some "chCursorPos")
       | .sendClipboard v =>
           match stepEffect p s e rest with
@@ -264,9 +267,9 @@ def step (d : D) (line : String) : D × String :=
   | ["stub", b] => ({ d with stub := b == "1" }, "-\t-\t-")
   | ["drain"] =>
     let s := d.sys
-    let out := (if s.sizeDone > 0 then #["sd"] else #[]) ++ (s.color.toArray.map fun v => s!"col:{cpsOut v}")
+    let out := (s.cursorCh.toArray.map fun v => s!"cp:{v.1}:{v.2}") ++ (if s.sizeDone > 0 then #["sd"] else #[]) ++ (s.color.toArray.map fun v => s!"col:{cpsOut v}")
       ++ (s.fg.toArray.map fun v => s!"fg:{cpsOut v}") ++ (s.bg.toArray.map fun v => s!"bg:{cpsOut v}")
-    let s := { s with sizeDone := 0, color := [], fg := [], bg := [] }
+    let s := { s with cursorCh := [], sizeDone := 0, color := [], fg := [], bg := [] }
     ({ d with sys := s }, s!"{joinA out} {canonState s}\t{impl}\t-")
   | "seq" :: rest =>
     match parseSeq rest with
@@ -310,12 +313,17 @@ def step (d : D) (line : String) : D × String :=
       | some r, some c =>
         if mode == "reply" then
           let p := params 1024 none
-          let s' := run p d.sys [.cursorCall, .input (.csi [] [[r], [c]] 82), .step]
+          let pre : List Label := if p.cursorDrain then [.cursorDrain] else []
+          let post : List Label := if p.cursorCap = 0 then [] else [.cursorRecv]
+          let s' := run p d.sys (pre ++ [.cursorCall, .input (.csi [] [[r], [c]] 82), .step] ++ post)
           let res := match s'.bind (·.cursorGot.getLast?) with
             | some (a, b) => s!"{a - 1},{b - 1}"
             | none => "none"
           finish s' res s!"{r - 1},{c - 1}"
-        else finish (run (params 1024 none) d.sys [.cursorCall, .cursorTimeout]) "-1,-1" "-1,-1"
+        else
+          let p := params 1024 none
+          let pre : List Label := if p.cursorDrain then [.cursorDrain] else []
+          finish (run p d.sys (pre ++ [.cursorCall, .cursorTimeout])) "-1,-1" "-1,-1"
       | _, _ => (d, "bad-op\tbad-op\tbad-op")
     | "size", [h, w, hp, wp, mode] =>
       match h.toInt?, w.toInt?, hp.toInt?, wp.toInt? with
